@@ -41,15 +41,22 @@ class StringSimplifyConstant:
     def filter(self, node):
         return is_string_const(node) and node != '""'
 
-    def mutations(self, node):
-        yield Simplification({node.id: Node('""')}, [])
-        content = node[1:-1]
+    def __candidates(self, content):
+        """Yield shorter versions of the string content."""
         for sec in nodes.binary_search(len(content)):
             start = self.__fix_escape_sequences(content, sec[0])
-            yield Simplification(
-                {node.id: Node(f'"{content[:start]}{content[sec[1]:]}"')}, [])
-        yield Simplification({node.id: Node(f'"{content[1:]}"')}, [])
-        yield Simplification({node.id: Node(f'"{content[:-1]}"')}, [])
+            yield f'{content[:start]}{content[sec[1]:]}'
+        yield content[1:]
+        yield content[:-1]
+
+    def mutations(self, node):
+        yield Simplification({node.id: Node('""')}, [])
+        for content in self.__candidates(node[1:-1]):
+            # A quote within a string literal is written as "". Cutting such
+            # a pair yields text that is no single string literal anymore.
+            if '"' in content.replace('""', ''):
+                continue
+            yield Simplification({node.id: Node(f'"{content}"')}, [])
 
     def global_mutations(self, node, input_):
         for simp in self.mutations(node):
